@@ -19,6 +19,10 @@ Definition gprep (g : gact) (p : list gact * bool) : list gact * bool := (cons g
    defer a Subscribe / StopSubscribe transmission for it with call_soon *)
 Inductive sact := SAppend | SRemove | SSoonStart | SSoonStop.
 
+(* what a TimedStore method does, in order: pop the entry (found), cancel the popped handle, call callback_new, arm the
+   TTL timer, store (callback_expired, handle), call the popped callback *)
+Inductive tact := TPop | TCancel | TCallNew | TArm | TStore | TCallback.
+
 (* what SimpleService.message_received answers: nothing, an error with a return code, the positive response *)
 Require Import Coq.NArith.BinNat.
 Inductive greply := GNoReply | GError (rc : N) | GPositive.
